@@ -1,9 +1,13 @@
 #!/usr/bin/env python3
-"""runs tools/seed_eval.sh on every seeded change and rewrites the table between the SEED-TABLE markers of DESIGN.md"""
+"""runs tools/seed_eval.sh on every seeded change and rewrites the table between the SEED-TABLE markers of DESIGN.md.
+`seeds_table.py --only C03-i C03-j ...` evaluates just those and merges their rows into the existing table."""
 import json, os, re, subprocess, sys
 ROOT = '/verif'
 rows = []
+only = sys.argv[2:] if len(sys.argv) > 2 and sys.argv[1] == '--only' else None
 for d in sorted(os.listdir(f'{ROOT}/seeded')):
+    if only is not None and d not in only:
+        continue
     m = json.load(open(f'{ROOT}/seeded/{d}/meta.json'))
     out = subprocess.run([f'{ROOT}/tools/seed_eval.sh', f'{ROOT}/seeded/{d}'], capture_output=True, text=True).stdout
     mm = re.search(r'exit=(\d)', out)
@@ -18,6 +22,11 @@ p = f'{ROOT}/DESIGN.md'
 s = open(p).read()
 a = s.index('<!-- SEED-TABLE-BEGIN -->')
 b = s.index('<!-- SEED-TABLE-END -->')
+if only is not None:
+    old = {r.split('|')[1].strip(): r for r in s[a:b].split('\n') if r.startswith('| C')}
+    for r in rows:
+        old[r.split('|')[1].strip()] = r
+    rows = [old[k] for k in sorted(old)]
 tbl = '<!-- SEED-TABLE-BEGIN -->\n| seed | change | result | failed obligation(s) (`bounded.*` = bounded stand-in on the real code) |\n|---|---|---|---|\n' + '\n'.join(rows) + '\n'
 open(p, 'w').write(s[:a] + tbl + s[b:])
 n1 = sum(1 for r in rows if '| VIOLATION |' in r)
